@@ -187,10 +187,16 @@ func init() {
 func Parse(line string, b literal.Builder) (*Triple, error) {
 	raw := strings.TrimSpace(line)
 	idxp := pSplit.FindIndex([]byte(raw))
-	idxo := oSplit.FindIndex([]byte(raw))
-	if len(idxp) == 0 || len(idxo) == 0 {
+	if len(idxp) == 0 {
 		return nil, fmt.Errorf("triple.Parse could not split s p o  out of %s", raw)
 	}
+	// The object delimiter is only meaningful after the start of the predicate.
+	off := idxp[1] - 1
+	idxo := oSplit.FindIndex([]byte(raw[off:]))
+	if len(idxo) == 0 {
+		return nil, fmt.Errorf("triple.Parse could not split s p o  out of %s", raw)
+	}
+	idxo[0], idxo[1] = idxo[0]+off, idxo[1]+off
 	ss, sp, so := raw[0:idxp[0]+1], raw[idxp[1]-1:idxo[0]+1], raw[idxo[1]-1:]
 	s, err := node.Parse(ss)
 	if err != nil {
